@@ -2,7 +2,7 @@
    (vm_compute) by harness/c19.py.  Case = L (A op :: args). *)
 From Coq Require Import ZArith List Bool String.
 From PTK Require Import Lib.Sx Lib.Py Lib.C19_Str Gen.C19_Palette
-     Model.C19_Palette Model.C19_Style Model.C19_Sgr Model.C19_FromDict Model.C19_Transform Model.C19_Cache.
+     Model.C19_Palette Model.C19_Style Model.C19_Sgr Model.C19_FromDict Model.C19_Transform Model.C19_Cache Model.C19_Merged.
 Import ListNotations.
 Open Scope Z_scope.
 
@@ -100,6 +100,50 @@ Definition enc_answer (a : answer) : sx :=
   | A256 i => A i
   end.
 
+(* style objects: [0 id] Style, [1] Dummy, [2 slot] Dynamic, [3 [children]] merged *)
+Fixpoint dec_sty (s : sx) : option sty :=
+  match s with
+  | L [A 0; A id] => Some (SStyle id)
+  | L [A 1] => Some SDummy
+  | L [A 2; A slot] => Some (SDynamic slot)
+  | L [A 3; L ts] =>
+      match (fix go (l : list sx) : option (list sty) :=
+               match l with
+               | [] => Some []
+               | x :: r => match dec_sty x, go r with
+                           | Some y, Some r' => Some (y :: r')
+                           | _, _ => None
+                           end
+               end) ts with
+      | Some l => Some (SMerged l)
+      | None => None
+      end
+  | _ => None
+  end.
+
+Definition dec_pool_entry (s : sx) : option (Z * rules_t) :=
+  match s with
+  | L [A id; rules] => match dec_sheet rules with Some r => Some (id, r) | None => None end
+  | _ => None
+  end.
+
+Definition dec_event (s : sx) : option event :=
+  match s with
+  | L [A 0; A slot; L []] => Some (ESwitch slot None)
+  | L [A 0; A slot; L [A id]] => Some (ESwitch slot (Some id))
+  | L [A 1; A k; st] =>
+      match as_str st with Some st' => if k <? 0 then None else Some (ELookup (Z.to_nat k) st') | None => None end
+  | L [A 2; A k] => if k <? 0 then None else Some (ERules (Z.to_nat k))
+  | _ => None
+  end.
+
+Definition enc_eanswer (a : eanswer) : sx :=
+  match a with
+  | ANone => L []
+  | AAttrs r => enc_res r
+  | ARules r => L [A 5; sx_list (fun nr : str * str => L [sx_str (fst nr); sx_str (snd nr)]) r]
+  end.
+
 Definition run_C19 (c : sx) : sx :=
   match c with
   | L [A 1; A mode; sheets; style_str; default] =>
@@ -173,6 +217,12 @@ Definition run_C19 (c : sx) : sx :=
       match map_opt dec_query qs with
       | Some qs' => sx_list enc_answer (run_queries EMPTY_W qs')
       | None => bad_case
+      end
+  | L [A 17; L pool; L objs; L events] =>
+      match map_opt dec_pool_entry pool, map_opt dec_sty objs, map_opt dec_event events with
+      | Some p, Some o, Some es =>
+          sx_list enc_eanswer (run_events p o ([], map (fun _ => None) o) es)
+      | _, _, _ => bad_case
       end
   | L [A 13; rules; style_str] =>
       match dec_sheet rules, as_str style_str with
